@@ -35,7 +35,7 @@ DOMAINS = {
     "num": INTS, "num_concurrent": [("0", 0), ("1", 1), ("2", 2)], "value": INTS, "number": INTS,
     "group_name": [("g1", "g1"), ("gx", "gx"), ("a\tb", "a\tb"), ("e\u0301\u212b", "e\u0301\u212b"),      # (not in NFC form)
                    ("None", "None"), ("my_grp-100%s", "my_grp-100%s"), ("", ""), ("g;lock", "g;lock")],          # (the text None is a name like any other)
-    "msg": [("hello", "hello"), ("None", "None")], "label": [("lbl", "lbl")],
+    "msg": [("hello", "hello"), ("None", "None"), ("", "")], "label": [("lbl", "lbl")],
     "f": INTS, "el": [("kg", "kg")], "level": INTS, "limit": INTS,
     "task_ids": [([], []), (["0"], [0]), (["0", "1"], [0, 1]), (["5"], [5]), (["0", "0"], [0, 0])],
     "group_names": [(["g1"], ["g1"]), (["g1", "start-group-0"], ["g1", "start-group-0"]), (["nosuch"], ["nosuch"]),
